@@ -173,10 +173,22 @@ def execute(req):
             if not torch.is_tensor(v):
                 ok = False
                 continue
+            if v.shape[0] <= i:  # an energy-only call leaves an empty force tensor
+                ok = ok and bool(req.get("energy_only")) and a == "force"
+                continue
             ok = ok and bool(torch.isfinite(v[i]).all())
         fin.append(ok)
     out.update(status="ok", nc=nc.tolist(), finite=fin, etot=[float(x) for x in sp.to_np(molecule.Etot)],
                qsum=[float(sp.to_np(molecule.q)[i, : nat[i]].sum()) for i in range(len(mols))])  # fmt: skip
+    # consistency twins of a request outside the listed preconditions that was ACCEPTED: the same request with the
+    # doubtful setting replaced by a valid one ("twin": the numbers must agree), and every molecule of the batch alone
+    # ("alone": acceptance must not depend on the batch mates)
+    if req.get("twin") is not None:
+        t = {k: v for k, v in req.items() if k not in ("twin", "alone")}
+        t["extra"] = dict(req.get("extra", {}), **req["twin"])
+        out["twin"] = execute(t)
+    if req.get("alone"):
+        out["alone"] = [execute({k: v for k, v in dict(req, mols=[m]).items() if k not in ("twin", "alone")}) for m in req["mols"]]
     out["t"] = time.process_time() - t0
     return out
 
@@ -352,6 +364,16 @@ def negative_lattice(tier, seed):
     ]
     for name, kw in un:
         reqs.append(_req("unlisted", "record", "AM1", kw.pop("mols"), seed, fault=name, **kw))
+    # unlisted settings that may be accepted, but then have to mean something: converger ids outside {0,1,2,3} against the
+    # default solver, and a number of excited states that only SOME members of a mixed batch can deliver
+    for cid in ([4], [7], [12], [-1]):
+        for sb in (0, 1):
+            reqs.append(_req("unlisted", "record", "AM1", [{"name": "H2O"}, {"name": "NH3"}], seed, fault=f"converger id {cid} scf_backward={sb}",
+                             extra={"scf_converger": cid, "scf_backward": sb}, twin={"scf_converger": [1]}, eps=1e-8))  # fmt: skip
+    for batch in (["CH4", "HF"], ["HF", "CH4"], ["H2CO", "LiH"] if False else ["H2CO", "HF"], ["HF", "H2O", "CH4"]):
+        for n in (5, 8, 16):
+            reqs.append(_req("unlisted", "record", "AM1", [{"name": b} for b in batch], seed, fault=f"n_states={n} in a mixed batch with HF (4 single excitations)",
+                             extra={"excited_states": {"n_states": n, "method": "cis"}}, alone=True, energy_only=True))  # fmt: skip
     reqs.append(_req("unlisted", "record", "XYZ", [{"name": "H2O"}], seed, fault="unknown method"))
     return reqs
 
@@ -478,7 +500,20 @@ def evaluate(chk, r, out, stats):
             f"{k}: invalid request was accepted silently (Etot={out['etot']}, sum q={[round(x, 6) for x in out['qsum']]})", replay=r,
         )  # fmt: skip
         return
-    chk.case(k, nontrivial=expect != "record", outcome=("returned", tuple(out["finite"]), tuple(out["nc"])))
+    chk.case(k, nontrivial=expect != "record" or "twin" in out or "alone" in out, outcome=("returned", tuple(out["finite"]), tuple(out["nc"])))
+    tw = out.get("twin")
+    if tw is not None and tw.get("status") == "ok":
+        for i, (a, b) in enumerate(zip(out["etot"], tw["etot"])):
+            if not out["nc"][i] and not tw["nc"][i] and not abs(a - b) <= 1e-5:
+                chk.violation(_desc(r, "accepted_unlisted_differs_from_valid_twin", out),
+                              f"{k}: the request was accepted and molecule {i} is reported converged with Etot = {a:.6f} eV, the same request with a valid setting gives {b:.6f} eV", replay=r)  # fmt: skip
+                break
+    al = out.get("alone")
+    if al is not None:
+        rej = [i for i, o in enumerate(al) if o.get("status") == "raised"]
+        if rej:
+            chk.violation(_desc(r, "accepted_in_batch_rejected_alone", out),
+                          f"{k}: the batch request was accepted although molecules {rej} alone are refused with it ({al[rej[0]].get('msg')})", replay=r)  # fmt: skip
     if unflagged:
         chk.violation(_desc(r, "nonfinite_unflagged", out), f"{k}: molecules {unflagged} have non-finite results without a notconverged flag", replay=r)
 
